@@ -82,7 +82,21 @@ TPlanEnd == /\ l <= Len(Rec) /\ Ev.ev = "AggPlanEnd"
             /\ \A i \in 1..nel : (i <= 12 \/ i + 23 >= nel \/ (i - 1) % Ev.stride = Ev.offset) => i \in covered
             /\ 0 \in covered
             /\ l' = l + 1 /\ UNCHANGED <<nel, covered>>
-TraceSpec == TInit /\ [][THeader \/ TAgg \/ TTamper \/ TInstance \/ TRefuse \/ TPlanEnd]_<<l, nel, covered>>
+\* ---- verifier gadget (foreign-curve back-end) --------------------------------
+\* `Gadget`: the verifier circuit run on a valid inner proof with instance = encode(vk identity, OFF-circuit
+\* accumulator): satisfied, the accumulator the circuit itself exposes is the off-circuit one, and that
+\* accumulator passes the pairing check.  `GadgetEdit`: any other claimed instance is unsatisfiable.
+\* `GadgetCorrupt`: for a corrupted proof or public input that the off-circuit verifier still parses, the
+\* in-circuit verifier derives the same accumulator, and it fails the pairing check.
+TGadget == /\ l <= Len(Rec) /\ Ev.ev = "Gadget"
+           /\ Ev.status = "sat" /\ Ev.same = TRUE /\ Ev.acc_check = TRUE /\ Ev.n_pi > 0
+           /\ l' = l + 1 /\ UNCHANGED <<nel, covered>>
+TGadgetEdit == l <= Len(Rec) /\ Ev.ev = "GadgetEdit" /\ Ev.status = "unsat" /\ l' = l + 1 /\ UNCHANGED <<nel, covered>>
+TGadgetCorrupt == /\ l <= Len(Rec) /\ Ev.ev = "GadgetCorrupt"
+                  /\ Ev.off_parses => (Ev.in_circuit = "ok" /\ Ev.same = TRUE /\ Ev.acc_check = FALSE)
+                  /\ l' = l + 1 /\ UNCHANGED <<nel, covered>>
+TraceSpec == TInit /\ [][THeader \/ TAgg \/ TTamper \/ TInstance \/ TRefuse \/ TPlanEnd
+                          \/ TGadget \/ TGadgetEdit \/ TGadgetCorrupt]_<<l, nel, covered>>
 
 TraceAccepted ==
   LET d == TLCGet("stats").diameter IN
